@@ -48,10 +48,15 @@ ASSUMPTIONS = [
     'C20.sources judges the reported source encodings against the document: together they are the absolute statement',
     'a well-formed XML declaration is one matching production [23] of XML 1.0; ill-formed declarations are not enumerated',
     'tryEncodings is judged only without chardet: result decodes the text, pure ASCII answers ascii',
+    'every document of the getEncodingInfo table has at least 4 bytes; documents of 0..3 bytes are enumerated for detectXMLEncoding '
+    'only (test_encutils pins encoding None for application/xml + "1")',
+    'the media type handed to a response stub is well-formed; a header object answering a charset but no media type is not enumerated',
 ]
 FLOORS = {
-    'quick': {'evaluations': 300000, 'outcomes': 150, 'counter:table.rows': 100000, 'counter:sniff.calls': 150000, 'set:rungs': 5},
-    'thorough': {'evaluations': 2000000, 'outcomes': 200, 'counter:table.rows': 1000000, 'counter:sniff.calls': 1000000, 'set:rungs': 5},
+    'quick': {'evaluations': 1000000, 'outcomes': 100, 'counter:table.rows': 130000, 'counter:sniff.calls': 1000000,
+              'counter:meta.calls': 55000, 'set:rungs': 5, 'set:classes': 7, 'set:sniff.reasons': 8},
+    'thorough': {'evaluations': 15000000, 'outcomes': 120, 'counter:table.rows': 5000000, 'counter:sniff.calls': 10000000,
+                 'counter:meta.calls': 55000, 'set:rungs': 5, 'set:classes': 7, 'set:sniff.reasons': 8},
 }
 
 # ----------------------------------------------------------------------------------------
@@ -470,7 +475,10 @@ def run_table_case(res, case):
     for clause, sym, exp, obs in vs:
         klass = klass_of(case)
         need = essential(case, clause, sym)
-        sig = f'{sym}|class={klass}|needs={",".join(need) or "nothing"}'
+        if clause == 'C20.lowercase':
+            sig = f'{sym}|needs={",".join(need) or "nothing"}'  # a property of the field, whatever the media type
+        else:
+            sig = f'{sym}|class={klass}|needs={",".join(need) or "nothing"}'
         res.violation(clause, sig, case, exp, obs, size=_size(case))
 
 
@@ -558,8 +566,7 @@ def judge_sniff(case, res=None):
         if res is not None:
             res.clauses['C20.tell'] += 1
         if tell != case['pos']:
-            where = 'start' if tell == 0 else 'end' if tell == len(data) else 'elsewhere'
-            out.append(('C20.tell', f'position-moved-to-{where}|given-as={case["as"]}', case['pos'], tell))
+            out.append(('C20.tell', f'position-not-restored|answer-from={reason}', case['pos'], tell))
     return out, (reason, got, None if tell is None else tell == case['pos'])
 
 
@@ -587,6 +594,11 @@ def run_sniff_case(res, case, size=None):
         if clause == 'C20.xmlsniff' and sym.startswith('expected-from='):
             need = _reduce(case, clause, sym, _sniff_steps, lambda c: judge_sniff(c)[0])
             sig = sym + '|needs=' + (','.join(need) or 'nothing')
+        elif clause == 'C20.tell':
+            # the kind of stream is part of the finding only if the other kind restores the position
+            other = dict(case, **{'as': 'bytestream' if case['as'] == 'textstream' else 'textstream'})
+            if not any(v[0] == clause for v in judge_sniff(other)[0]):
+                sig = sym + '|given-as=' + case['as']
         res.violation(clause, sig, case, exp, obs, size=size)
 
 
